@@ -95,6 +95,84 @@ def docs_of(s, q):
     return sorted(s.stored_fields(dn)["k"] for dn in q.docs(s))
 
 
+def check_batch4(ops):
+    """Deterministic families (fourth batch of seeded changes).
+    Wildcards: every pattern of length <= 4 over {a, b, ?, *} on a lexicon of short words: the rewrites (normalize may
+    turn a pattern into a Prefix / Term / Every) match the same documents as the original pattern.
+    Nested queries: compounds whose clauses are NestedParent / NestedChildren queries with the SAME child query but
+    DIFFERENT parent selectors (equal-looking clauses that must not be merged) under every rewrite."""
+    import itertools
+    from whoosh import fields, query
+    from whoosh.filedb.filestore import RamStorage
+    ix = RamStorage().create_index(fields.Schema(k=fields.ID(stored=True), g=fields.ID))
+    lex = ["", "a", "b", "ab", "ba", "aa", "abb", "aba", "abab", "abba", "bab", "abaa", "aab", "abc", "ab*", "a?"]
+    w = ix.writer()
+    for i, t in enumerate(lex):
+        if i == 7:
+            w.commit(merge=False)
+            w = ix.writer()
+        if t:
+            w.add_document(k=u"%d" % i, g=t)
+        else:
+            w.add_document(k=u"%d" % i)
+    w.commit(merge=False)
+    with ix.searcher() as s:
+        pats = set()
+        for n in range(1, 5):
+            for tup in itertools.product("ab?*", repeat=n):
+                pats.add("".join(tup))
+        for pat in sorted(pats):
+            q = query.Wildcard("g", pat)
+            base = docs_of(s, q)
+            for name, op in ops:
+                counts["cases"] += 1
+                try:
+                    r = op(q)
+                    got = docs_of(s, r)
+                except Exception as e:
+                    fail("C15-wildcard-%s-exception" % name, "%s of %r raised %s: %s" % (name, q, type(e).__name__, e))
+                    continue
+                if got != base:
+                    fail("C15-wildcard-%s" % name, "%r matches documents %r but its %s %r matches %r (lexicon %r)" % (q, base, name, r, got, lex))
+    # nested
+    ix = RamStorage().create_index(fields.Schema(k=fields.ID(stored=True), kind=fields.ID, f=fields.TEXT))
+    w = ix.writer()
+    n = 0
+    for gi in range(5):
+        w.start_group()
+        for kind, text in (("book", "alfa kilo" if gi % 2 else "alfa"), ("chapter", "kilo" if gi % 3 == 0 else "lima"),
+                           ("page", "kilo lima"), ("chapter", "mike kilo" if gi == 1 else "mike"), ("page", "november")):
+            w.add_document(k=u"%d" % n, kind=kind, f=text)
+            n += 1
+        w.end_group()
+        if gi == 2:
+            w.commit(merge=False)
+            w = ix.writer()
+    w.commit(merge=False)
+    books, chapters = query.Term("kind", u"book"), query.Term("kind", u"chapter")
+    kilo, lima = query.Term("f", u"kilo"), query.Term("f", u"lima")
+    mk = [lambda: query.Or([query.NestedParent(books, kilo), query.NestedParent(chapters, kilo)]),
+          lambda: query.DisjunctionMax([query.NestedParent(books, kilo), query.NestedParent(chapters, kilo)]),
+          lambda: query.Or([query.NestedChildren(books, kilo), query.NestedChildren(chapters, kilo)]),
+          lambda: query.And([query.NestedParent(books, kilo), query.Not(query.NestedParent(chapters, kilo))]),
+          lambda: query.Or([query.NestedParent(books, kilo), query.NestedParent(books, lima), query.NestedParent(chapters, lima)]),
+          lambda: query.NestedParent(books, kilo) | query.NestedParent(chapters, kilo)]
+    with ix.searcher() as s:
+        for m in mk:
+            q = m()
+            base = docs_of(s, m())
+            for name, op in ops:
+                counts["cases"] += 1
+                try:
+                    r = op(q)
+                    got = docs_of(s, r)
+                except Exception as e:
+                    fail("C15-nested-%s-exception" % name, "%s of %r raised %s: %s" % (name, q, type(e).__name__, e))
+                    continue
+                if got != base:
+                    fail("C15-nested-%s" % name, "%r matches documents %r but its %s %r matches %r" % (q, base, name, r, got))
+
+
 def main():
     n, seed = int(sys.argv[1]), int(sys.argv[2])
     tmp = tempfile.mkdtemp(prefix="rw_")
@@ -169,6 +247,11 @@ def main():
                 continue
             if da != db:
                 fail("C15-%s" % name, "%r via the operator matches %r, the explicit form %r matches %r" % (a, da, b, db))
+    try:
+        check_batch4(ops)
+    except Exception:
+        import traceback
+        fail("exception/batch4", traceback.format_exc()[-600:])
     for s in searchers:
         s.close()
     import shutil
